@@ -227,4 +227,62 @@ theorem extendOld_refuted :
     extendOld ends blocks ≠ extendSpec ends blocks ∧ extend ends blocks = extendSpec ends blocks := by
   decide
 
+
+/-! ### text level: what `GetHaplotypeBlocks` does with the whitespace-split lines of the file -/
+
+/-- `"X" in chrom` -/
+def containsChar (s : String) (c : Char) : Bool := s.toList.contains c
+
+/-- `karyogram.GetChrom` (`int()` of a non-numeric name raises: `none`) -/
+def getChrom (chrom : String) : Option Nat :=
+  if containsChar chrom 'X' then some 23
+  else if containsChar chrom 'Y' then some 24
+  else if chrom.startsWith "chr" then (chrom.drop 3).toString.toNat?
+  else chrom.toNat?
+
+/-- `"_".join(line[0].split("_")[:-1])` -/
+def headerName (tok : String) : String := String.intercalate "_" (tok.splitOn "_").dropLast
+
+inductive KErr | value_error | key_error | index_error | assertion_error
+deriving Repr, DecidableEq
+
+/-- one whitespace-split line: a single token is a strand header, otherwise `pop chrom … cM`
+    (the cM value arrives as an integer number of 1e-4 cM, parsed by the harness) -/
+def parseTok (toks : List String) (cm : Int) : Except KErr (Option KLine) :=
+  match toks with
+  | [] => .ok none            -- blank line: `line[1]` would raise IndexError only while parsing a sample
+  | [h] => if h.endsWith "_1" || h.endsWith "_2" then .ok (some (.header (headerName h))) else .error .assertion_error
+  | pop :: chrom :: _ =>
+    match getChrom chrom with
+    | some c => .ok (some (.block pop c cm))
+    | none => .error .value_error
+
+/-- the chromosome-ends table as read from the file: later lines overwrite earlier ones (`dict`) -/
+def lookupLast (tbl : List (Nat × Int)) (c : Nat) : Option Int :=
+  (tbl.reverse.find? (fun p => p.1 = c)).map (·.2)
+
+/-- the extension with Python's failure modes made explicit: an empty strand is `block[0]` → IndexError,
+    a chromosome missing from the table is a KeyError -/
+def extendChecked (tbl : List (Nat × Int)) (blocks : List Blk) : Except KErr (List Blk) :=
+  if blocks.isEmpty then .error .index_error
+  else if blocks.all (fun b => (lookupLast tbl b.chrom).isSome) then
+    .ok (extend (fun c => (lookupLast tbl c).getD 0) blocks)
+  else .error .key_error
+
+def karyogram (name : String) (lines : List KLine) (tbl : Option (List (Nat × Int))) : Except KErr (List (List Blk)) :=
+  let r := getBlocks name lines
+  match tbl with
+  | none => .ok r
+  | some t => r.mapM (extendChecked t)
+
+/-- when the table covers every chromosome drawn, the checked extension is the specification -/
+theorem extendChecked_ok (tbl : List (Nat × Int)) (blocks : List Blk) (hne : blocks ≠ [])
+    (hcov : ∀ b ∈ blocks, (lookupLast tbl b.chrom).isSome) :
+    extendChecked tbl blocks = .ok (extendSpec (fun c => (lookupLast tbl c).getD 0) blocks) := by
+  unfold extendChecked
+  have h1 : blocks.isEmpty = false := by cases blocks <;> simp_all
+  have h2 : blocks.all (fun b => (lookupLast tbl b.chrom).isSome) = true := by
+    rw [List.all_eq_true]; exact hcov
+  simp [h1, h2, extend_eq_spec]
+
 end Karyogram
